@@ -276,3 +276,45 @@ def classify_exc(e: BaseException) -> str:
     if type(e) is Exception:
         return 'strlen'
     return 'other:' + n
+
+
+def parse_message(text: str, schema: dict) -> list:
+    """Inverse of show_message, directed by the schema (records need their class name)."""
+    toks = text.split()
+    pos = 1
+
+    def val(ty):
+        nonlocal pos
+        t = toks[pos]
+        pos += 1
+        if t == '_':
+            return None
+        if t in ('N', 'I'):
+            pos += 1
+            return (t, int(toks[pos - 1]))
+        if t == 'B':
+            pos += 1
+            return ('B', toks[pos - 1] == '1')
+        if t == 'S':
+            k = int(toks[pos])
+            cps = toks[pos + 1:pos + 1 + k]
+            pos += 1 + k
+            return ('S', ''.join(chr(int(c)) for c in cps))
+        if t == 'Y':
+            pos += 1
+            h = toks[pos - 1]
+            return ('Y', b'' if h == '-' else bytes.fromhex(h))
+        if t == 'P':
+            pos += 4
+            return ('P', tuple(int(x) for x in toks[pos - 4:pos]))
+        if t == 'A':
+            k = int(toks[pos])
+            pos += 1
+            return ('A', [val(ty['arr']) for _ in range(k)])
+        if t == 'R':
+            k = int(toks[pos])
+            pos += 1
+            return ('R', ty['record'], [val(f['ty']) for f in ty['fields'][:k]])
+        raise ValueError(t)
+    n = int(toks[0])
+    return [val(schema['fields'][i]['ty']) for i in range(n)]
